@@ -61,6 +61,18 @@ pub fn unhex(s: &str) -> Vec<u8> {
 
 thread_local! {
     static GUARD_DEPTH: std::cell::Cell<u32> = const { std::cell::Cell::new(0) };
+    static BUSY_SLOT: usize = NEXT_SLOT.fetch_add(1, std::sync::atomic::Ordering::Relaxed) % BUSY_SLOTS;
+}
+
+/// One slot per thread: 0 = not inside a guarded library call, otherwise milliseconds since process start + 1
+/// at which the outermost guarded call began (read by the global hang watchdog).
+pub const BUSY_SLOTS: usize = 512;
+static NEXT_SLOT: std::sync::atomic::AtomicUsize = std::sync::atomic::AtomicUsize::new(0);
+pub static BUSY: [std::sync::atomic::AtomicU64; BUSY_SLOTS] = [const { std::sync::atomic::AtomicU64::new(0) }; BUSY_SLOTS];
+static T0: std::sync::OnceLock<std::time::Instant> = std::sync::OnceLock::new();
+
+pub fn now_ms() -> u64 {
+    T0.get_or_init(std::time::Instant::now).elapsed().as_millis() as u64
 }
 
 /// Install a panic hook that stays silent for panics inside `guarded` (those are captured and
@@ -76,8 +88,17 @@ pub fn silence_panics() {
 
 /// Runs `f`, converting a panic into `Err(message)`.
 pub fn guarded<T, F: FnOnce() -> T>(f: F) -> Result<T, String> {
-    GUARD_DEPTH.with(|d| d.set(d.get() + 1));
+    let outermost = GUARD_DEPTH.with(|d| {
+        d.set(d.get() + 1);
+        d.get() == 1
+    });
+    if outermost {
+        BUSY_SLOT.with(|i| BUSY[*i].store(now_ms() + 1, std::sync::atomic::Ordering::Relaxed));
+    }
     let r = catch_unwind(AssertUnwindSafe(f));
+    if outermost {
+        BUSY_SLOT.with(|i| BUSY[*i].store(0, std::sync::atomic::Ordering::Relaxed));
+    }
     GUARD_DEPTH.with(|d| d.set(d.get().saturating_sub(1)));
     match r {
         Ok(v) => Ok(v),
